@@ -29,8 +29,8 @@ type resMsg struct {
 	// this result; the parent must start a fresh worker for the next job.
 	Exit bool            `json:"exit,omitempty"`
 	Idx  int             `json:"idx"`
-	Res json.RawMessage `json:"res,omitempty"`
-	Err string          `json:"err,omitempty"`
+	Res  json.RawMessage `json:"res,omitempty"`
+	Err  string          `json:"err,omitempty"`
 }
 
 // WorkerMain is the body of `vcheck --worker`: read job lines, write result lines.
